@@ -118,8 +118,8 @@ def make_case(rng):
         env = [rng.randrange(nenv) for _ in range(n)]
         if faulty:
             r = rng.random()
-            if r < 0.3:
-                env = env + [0]
+            if r < 0.3:        # wrong length: one more, twice as many, a single entry (broadcastable), none
+                env = rng.choice([env + [0], env + env, env[:1] if n > 1 else env + [0], env[:1] if n > 1 else [], []])
             elif r < 0.5 and n > 1:
                 env = env[:-1]
             elif r < 0.75:
